@@ -290,6 +290,7 @@ func LoadS2() ([]*Pkg, []string, error) {
 		}
 		out = append(out, p)
 	}
+	out = append(out, GenShapes()...)
 	return out, skipped, nil
 }
 
